@@ -1,7 +1,7 @@
 //! C05 — Client transactions retransmit and time out on the RFC 3261 timer schedule
 
 use crate::engine::*;
-use crate::refmodel::ref_tsx::{self, T4, TIMEOUT};
+use crate::refmodel::ref_tsx::{self, T1 as T1X, T4, TIMEOUT};
 use crate::world::*;
 use parking_lot::Mutex;
 use proptest::prelude::*;
@@ -655,6 +655,450 @@ pub fn check(case: &Case, out: &mut CaseOut) {
     }
 }
 
+
+// ------------------------------------------------------------------------------------------------------------
+// sub-check "pacing": the application and the transport are not instantaneous
+//
+// The transaction objects are poll-driven: the application calls `receive()` when it gets round to it and a
+// transport `send` takes time. This sub-check varies (a) how long a `send` stays pending after the bytes went
+// out, (b) when the application first calls `receive()`, (c) how long it thinks after every result before it
+// calls `receive()` again. Responses arrive on the wire clock regardless (also while a send is pending and
+// while the application is busy). What is asserted is what the statement fixes independently of pacing:
+//   * the first transmission happens at once; a retransmission is never sent sooner after the previous
+//     transmission than the RFC interval for its ordinal (T1, 2*T1, 4*T1 ... / capped at T2 for non-INVITE):
+//     pacing may delay retransmissions, it must not compress them into bursts;
+//   * nothing is transmitted after the first response arrived (INVITE: any response; non-INVITE: a final one)
+//     nor after 64*T1 (+ the duration of a pending send); a reliable transport sends exactly once;
+//   * no response is lost: each response that arrived while the transaction could still accept it is handed
+//     to the caller, in arrival order, as soon as the caller asks (never before it arrived); the 2xx window
+//     of an INVITE counts from the first 2xx: every 2xx that ARRIVED within 64*T1 of the first one's arrival
+//     must come out even if the caller asks late, completion is reported afterwards and not before.
+// Not asserted here: the exact instants of delayed retransmissions (they depend on when the caller polls);
+// what happens to responses arriving between "64*T1 after the first 2xx arrived" and "64*T1 after the caller
+// took it"; non-INVITE Proceeding timeout.
+
+#[derive(Serialize, Deserialize, Clone, Debug, Hash)]
+pub struct PCase {
+    pub invite: bool,
+    pub reliable: bool,
+    /// a transport `send` stays pending this long after the bytes went out
+    pub send_delay: u64,
+    /// the application calls `receive()` for the first time at this instant (ms after the first send started)
+    pub first_poll: u64,
+    /// think time after the i-th result before `receive()` is called again
+    pub thinks: Vec<u64>,
+    pub responses: Vec<Resp>,
+    pub rng: u8,
+}
+
+const SEND_DELAYS: &[u64] = &[0, 0, 5, 50, 400];
+const FIRST_POLLS: &[u64] = &[0, 0, 1, 300, 700, 2_000, 10_000, 20_000, 29_000];
+const THINKS: &[u64] = &[0, 0, 10, 600, 5_000, 33_000];
+
+fn pacing_strategy() -> BoxedStrategy<PCase> {
+    (
+        any::<bool>(),
+        prop_oneof![4 => Just(false), 1 => Just(true)],
+        any::<u16>(),
+        (any::<u16>(), 0u64..29_000, any::<bool>()),
+        prop::collection::vec(any::<u16>(), 0..5),
+        prop::collection::vec((any::<u16>(), any::<u16>(), 0u64..40_000, any::<bool>()), 0..5),
+        any::<u8>(),
+    )
+        .prop_map(|(invite, reliable, dsel, (psel, prnd, puse), tsel, raw, rng)| {
+            let send_delay = SEND_DELAYS[pick_idx(dsel, SEND_DELAYS.len())];
+            let first_poll = if puse { prnd } else { FIRST_POLLS[pick_idx(psel, FIRST_POLLS.len())] };
+            let thinks = tsel.into_iter().map(|s| THINKS[pick_idx(s, THINKS.len())]).collect();
+            let mut grid = first_time_grid(invite);
+            grid.extend([3, 10, 40, 60, first_poll.saturating_sub(1).max(1), first_poll + 1, first_poll + 501]);
+            grid.sort();
+            let mut responses = vec![];
+            let mut t = 0u64;
+            for (i, (tsel, csel, rnd, use_rnd)) in raw.into_iter().enumerate() {
+                if i == 0 {
+                    t = if use_rnd { rnd } else { grid[pick_idx(tsel, grid.len())] };
+                } else {
+                    t += if use_rnd { rnd } else { TAIL_OFFSETS[pick_idx(tsel, TAIL_OFFSETS.len())] };
+                }
+                t = t.max(1);
+                // keep clear of the 64*T1 deadline, which a pending send moves by up to its duration
+                // (the deadline counts from the end of the first send and is noticed only between sends)
+                if t + 2 >= TIMEOUT && t <= TIMEOUT + 2 * send_delay + 2 {
+                    t = TIMEOUT + 2 * send_delay + 3;
+                }
+                responses.push(Resp { t_ms: t, code: CODES[pick_idx(csel, CODES.len())] });
+            }
+            PCase { invite, reliable, send_delay, first_poll, thinks, responses, rng }
+        })
+        .boxed()
+}
+
+fn pacing_grid(_tier: Tier) -> Vec<PCase> {
+    let mut out = vec![];
+    for invite in [false, true] {
+        for &send_delay in &[0u64, 50] {
+            for &first_poll in &[0u64, 700, 10_000] {
+                // nothing arrives
+                out.push(PCase { invite, reliable: false, send_delay, first_poll, thinks: vec![], responses: vec![], rng: 0 });
+                for &code in &[100u16, 180, 200, 404] {
+                    for &t in &[10u64, 600, 9_000, 10_001, 12_000] {
+                        out.push(PCase {
+                            invite,
+                            reliable: false,
+                            send_delay,
+                            first_poll,
+                            thinks: vec![0, 600, 33_000],
+                            responses: vec![Resp { t_ms: t, code }, Resp { t_ms: t + 700, code: 200 }, Resp { t_ms: t + 20_000, code: 200 }],
+                            rng: 1,
+                        });
+                        out.push(PCase {
+                            invite,
+                            reliable: false,
+                            send_delay,
+                            first_poll,
+                            thinks: vec![33_000, 0],
+                            responses: vec![Resp { t_ms: t, code }, Resp { t_ms: t + 1_000, code: 200 }],
+                            rng: 2,
+                        });
+                    }
+                }
+            }
+        }
+    }
+    out
+}
+
+struct Paced {
+    sends: Vec<Sent>,
+    results: Vec<(u64, Res)>,
+    send_done: Option<u64>,
+}
+
+fn run_paced(case: &PCase) -> Paced {
+    let case = case.clone();
+    run_world(case.rng as u64, |clock| async move {
+        let log = WireLog::new(clock);
+        let (tp, _id) = mock_datagram_slow(&log, "UDP", false, case.reliable, "10.0.0.1:5060", case.send_delay);
+        let endpoint = offline_builder().build();
+        let peer: SocketAddr = "192.0.2.1:5060".parse().unwrap();
+        let results: Arc<Mutex<Vec<(u64, Res)>>> = Default::default();
+        let send_done: Arc<Mutex<Option<u64>>> = Default::default();
+        let request = base_request(case.invite);
+        let method = request.line.method.to_string();
+        let marker_of = |r: &sip_core::transaction::TsxResponse| -> String {
+            r.headers
+                .iter()
+                .find(|(n, _)| n.as_print_str().eq_ignore_ascii_case("x-seq"))
+                .map(|(_, v)| v.to_string())
+                .unwrap_or_default()
+        };
+        {
+            let endpoint = endpoint.clone();
+            let tp = tp.clone();
+            let results = results.clone();
+            let send_done = send_done.clone();
+            let case = case.clone();
+            tokio::spawn(async move {
+                let mut target = TargetTransportInfo { via_host_port: None, transport: Some((tp, peer)) };
+                let mut thinks = case.thinks.clone().into_iter();
+                if case.invite {
+                    let mut tsx = match endpoint.send_invite(request, &mut target).await {
+                        Ok(t) => t,
+                        Err(e) => {
+                            results.lock().push((clock.now_ms(), Res::Err(format!("send: {e}"))));
+                            return;
+                        }
+                    };
+                    *send_done.lock() = Some(clock.now_ms());
+                    clock.until(case.first_poll).await;
+                    loop {
+                        let r = tsx.receive().await;
+                        let now = clock.now_ms();
+                        match r {
+                            Ok(Some(r)) => results.lock().push((now, Res::Resp(r.line.code.into_u16(), marker_of(&r)))),
+                            Ok(None) => {
+                                results.lock().push((now, Res::Finished));
+                                break;
+                            }
+                            Err(e) => {
+                                results.lock().push((now, Res::Err(e.to_string())));
+                                break;
+                            }
+                        }
+                        let th = thinks.next().unwrap_or(0);
+                        if th > 0 {
+                            clock.advance(th).await;
+                        }
+                    }
+                } else {
+                    let mut tsx = match endpoint.send_request(request, &mut target).await {
+                        Ok(t) => t,
+                        Err(e) => {
+                            results.lock().push((clock.now_ms(), Res::Err(format!("send: {e}"))));
+                            return;
+                        }
+                    };
+                    *send_done.lock() = Some(clock.now_ms());
+                    clock.until(case.first_poll).await;
+                    loop {
+                        let r = tsx.receive().await;
+                        let now = clock.now_ms();
+                        match r {
+                            Ok(r) => {
+                                let code = r.line.code.into_u16();
+                                results.lock().push((now, Res::Resp(code, marker_of(&r))));
+                                if code >= 200 {
+                                    break;
+                                }
+                            }
+                            Err(e) => {
+                                results.lock().push((now, Res::Err(e.to_string())));
+                                break;
+                            }
+                        }
+                        let th = thinks.next().unwrap_or(0);
+                        if th > 0 {
+                            clock.advance(th).await;
+                        }
+                    }
+                }
+            });
+        }
+        settle().await;
+        let first_request = log.snapshot().first().and_then(|s| WireMsg::parse(&s.bytes));
+        for (i, r) in case.responses.iter().enumerate() {
+            clock.until(r.t_ms).await;
+            if let Some(req) = &first_request {
+                let bytes = response_text(
+                    req,
+                    r.code,
+                    if r.code > 100 { Some("peertag") } else { None },
+                    &[format!("X-Seq: m{i}"), "Contact: <sip:bob@192.0.2.1>".to_string()],
+                );
+                inject(&endpoint, &tp, peer, &bytes);
+            }
+            settle().await;
+        }
+        let horizon = case.responses.last().map(|r| r.t_ms).unwrap_or(0).max(case.first_poll)
+            + case.thinks.iter().sum::<u64>()
+            + 4 * TIMEOUT;
+        clock.until(horizon).await;
+        settle().await;
+        let sends = log
+            .parsed()
+            .into_iter()
+            .filter(|(_, m)| m.as_ref().map_or(false, |m| m.method() == Some(method.as_str())))
+            .map(|(s, _)| s)
+            .collect();
+        let results = results.lock().clone();
+        let send_done = *send_done.lock();
+        Paced { sends, results, send_done }
+    })
+}
+
+fn pacing_check(case: &PCase, out: &mut CaseOut) {
+    let obs = run_paced(case);
+    let invite = case.invite;
+    let kind = if invite { "invite" } else { "non-invite" };
+    let slack = 2 * case.send_delay + 2;
+    let send_times: Vec<u64> = obs.sends.iter().map(|s| s.t_ms).collect();
+    out.note = Some(format!("sends@{send_times:?} send_done={:?} results={:?}", obs.send_done, obs.results));
+    out.class(kind);
+    if case.send_delay > 0 {
+        out.class("send stays pending");
+    }
+    if case.first_poll > 0 {
+        out.class("first receive() delayed");
+    }
+    let r0 = case.responses.first().map(|r| r.t_ms);
+    if r0.map_or(false, |t| t < case.send_delay) {
+        out.class("response arrives while the first send is still pending");
+    }
+    if r0.map_or(false, |t| t < case.first_poll) {
+        out.class("response arrives before the first receive()");
+    }
+    if r0.map_or(true, |t| t > case.first_poll + T1) && case.first_poll > T1 && !case.reliable {
+        out.class("retransmission deadlines passed before the first receive()");
+    }
+
+    // ---- transmissions ----
+    if send_times.first() != Some(&0) {
+        out.fail("c05.pacing/first-send-not-immediate", format!("sends at {send_times:?}"));
+    }
+    if case.reliable {
+        if send_times != vec![0] {
+            out.fail(format!("c05.pacing/reliable-{kind}-retransmits"), format!("reliable transport: sends at {send_times:?}"));
+        }
+    } else {
+        // pacing may delay a retransmission, never bring it closer to its predecessor than the RFC interval
+        let mut interval = T1X;
+        for w in send_times.windows(2) {
+            if w[1] - w[0] < interval {
+                out.fail(
+                    format!("c05.pacing/{kind}-retransmissions-compressed"),
+                    format!("transmissions at {send_times:?}: gap {} ms where the RFC interval is {interval} ms", w[1] - w[0]),
+                );
+                break;
+            }
+            interval *= 2;
+            if !invite {
+                interval = interval.min(ref_tsx::T2);
+            }
+        }
+        let stop = match case.responses.first() {
+            Some(r) if invite || r.code >= 200 => Some(r.t_ms),
+            _ => None,
+        };
+        if let Some(stop) = stop {
+            if send_times.iter().any(|t| *t > stop) {
+                out.fail(
+                    format!("c05.pacing/{kind}-retransmit-after-response"),
+                    format!("a response arrived at {stop} ms, transmissions at {send_times:?}"),
+                );
+            }
+        }
+        if send_times.iter().any(|t| *t > TIMEOUT + slack) {
+            out.fail(format!("c05.pacing/{kind}-send-after-timeout"), format!("transmissions at {send_times:?}"));
+        }
+    }
+    if let Some(first) = obs.sends.first() {
+        if obs.sends.iter().any(|s| s.bytes != first.bytes || s.dest != first.dest || s.tp != first.tp) {
+            out.fail(format!("c05.pacing/{kind}-not-identical"), "a retransmission differs from the first transmission");
+        }
+    }
+
+    // ---- results ----
+    // arrival-based expectation: (index, mandatory)
+    #[derive(Clone, Copy, PartialEq, Debug)]
+    enum Need {
+        Must,
+        May,
+        Never,
+    }
+    let n = case.responses.len();
+    let mut need = vec![Need::Never; n];
+    let mut end: Option<&'static str> = None; // how the transaction must end, if asserted
+    let mut first_2xx: Option<usize> = None;
+    let mut truncated = false; // expectations stop here (un-asserted territory follows)
+    if r0.map_or(true, |t| t > TIMEOUT) {
+        end = Some("timeout");
+    } else {
+        for (i, r) in case.responses.iter().enumerate() {
+            if let Some(f) = first_2xx {
+                let fa = case.responses[f].t_ms;
+                need[i] = if r.t_ms < fa + TIMEOUT {
+                    if (200..300).contains(&r.code) { Need::Must } else { Need::May }
+                } else {
+                    Need::May // between "64*T1 after it arrived" and "64*T1 after the caller took it": not asserted
+                };
+                continue;
+            }
+            if !invite && i > 0 {
+                // non-INVITE Proceeding: the 64*T1 deadline ends it, not asserted how: stop expecting anything firm
+                // once an arrival or the caller's next receive() comes close to it
+                if r.t_ms + slack + 2 >= TIMEOUT {
+                    truncated = true;
+                    break;
+                }
+            }
+            need[i] = Need::Must;
+            if (200..300).contains(&r.code) && invite {
+                first_2xx = Some(i);
+                end = Some("finished");
+            } else if r.code >= 200 {
+                end = Some(if invite { "finished" } else { "final" });
+                break;
+            }
+        }
+    }
+    let mut ai = 0usize; // next arrival to account for
+    let mut ready = case.first_poll.max(obs.send_done.unwrap_or(0));
+    let mut think_i = 0usize;
+    let mut ended: Option<(u64, Res)> = None;
+    let mut taken_2xx_at: Option<u64> = None;
+    let mut bad: Option<(String, String)> = None;
+    for (t, res) in &obs.results {
+        match res {
+            Res::Resp(code, marker) => {
+                // which arrival is it
+                let idx = marker.strip_prefix('m').and_then(|x| x.parse::<usize>().ok());
+                let Some(idx) = idx.filter(|i| *i < n && case.responses[*i].code == *code) else {
+                    bad = Some(("unknown-response".into(), format!("receive() yielded {res:?} which was never sent")));
+                    break;
+                };
+                if idx < ai {
+                    bad = Some(("duplicate-or-reordered".into(), format!("response m{idx} yielded again / out of order at {t} ms")));
+                    break;
+                }
+                if let Some(k) = (ai..idx).find(|k| need[*k] == Need::Must) {
+                    bad = Some(("response-lost".into(), format!("response m{k} (arrived at {} ms) was never handed to the caller; next result is m{idx} at {t} ms", case.responses[k].t_ms)));
+                    break;
+                }
+                if need[idx] == Need::Never && !truncated {
+                    bad = Some(("response-after-end".into(), format!("response m{idx} handed out at {t} ms although the transaction had ended")));
+                    break;
+                }
+                let arr = case.responses[idx].t_ms;
+                if *t < arr {
+                    bad = Some(("harness-time".into(), format!("m{idx} yielded at {t} before its arrival {arr}")));
+                    break;
+                }
+                if need[idx] == Need::Must && *t > arr.max(ready) + slack {
+                    bad = Some(("response-late".into(), format!("response m{idx} arrived at {arr} ms, caller was waiting since {ready} ms, yielded only at {t} ms")));
+                    break;
+                }
+                if first_2xx == Some(idx) {
+                    taken_2xx_at = Some(*t);
+                }
+                ai = idx + 1;
+                ready = *t + case.thinks.get(think_i).copied().unwrap_or(0);
+                think_i += 1;
+            }
+            other => {
+                ended = Some((*t, other.clone()));
+                break;
+            }
+        }
+    }
+    if bad.is_none() && !truncated {
+        // everything mandatory must have come out before the end
+        if let Some(k) = (ai..n).find(|k| need[*k] == Need::Must) {
+            bad = Some(("response-lost".into(), format!("response m{k} (arrived at {} ms) was never handed to the caller; transaction ended with {ended:?}", case.responses[k].t_ms)));
+        } else {
+            match (end, &ended) {
+                (Some("timeout"), Some((t, Res::Err(m)))) if m.contains("timed out") => {
+                    if *t < TIMEOUT || *t > TIMEOUT.max(ready) + slack {
+                        bad = Some(("timeout-instant".into(), format!("timeout reported at {t} ms (caller waiting since {ready} ms)")));
+                    }
+                }
+                (Some("timeout"), e) => bad = Some(("timeout-missing".into(), format!("no response before 64*T1: expected a timeout, got {e:?}"))),
+                (Some("final"), None) => {}
+                (Some("final"), e) => bad = Some(("after-final".into(), format!("unexpected {e:?} after the final response"))),
+                (Some("finished"), Some((t, Res::Finished))) => {
+                    if let Some(f) = first_2xx {
+                        let fa = case.responses[f].t_ms;
+                        let hi = taken_2xx_at.unwrap_or(fa) + TIMEOUT;
+                        if *t < fa + TIMEOUT {
+                            bad = Some(("completion-early".into(), format!("completion reported at {t} ms, first 2xx arrived at {fa} ms")));
+                        } else if *t > hi.max(ready) + slack {
+                            bad = Some(("completion-late".into(), format!("completion reported at {t} ms, expected by {} ms", hi.max(ready))));
+                        }
+                    }
+                }
+                (Some("finished"), e) => bad = Some(("completion-missing".into(), format!("expected completion (None) after the final response(s), got {e:?}"))),
+                (None, _) => {}
+                (Some(_), _) => {}
+            }
+        }
+    }
+    if let Some((locus, msg)) = bad {
+        out.fail(format!("c05.pacing/{kind}-{locus}"), format!("{msg}; results {:?}", obs.results));
+    }
+    if case.send_delay > 0 || case.first_poll > 0 || case.thinks.iter().any(|t| *t > 0) {
+        out.nontrivial(case);
+    }
+}
+
 pub fn property() -> Property {
     Property {
         fuzz: vec![],
@@ -669,6 +1113,8 @@ pub fn property() -> Property {
         subs: vec![
             enum_sub("grid", grid_cases, check),
             prop_sub("random", strategy, 2500, 60000, check),
+            enum_sub("pacing_grid", pacing_grid, pacing_check),
+            prop_sub("pacing", pacing_strategy, 1500, 40000, pacing_check),
         ],
     }
 }
